@@ -185,13 +185,11 @@ class TypeState:
         if fa.cfg.must_pass(calls, fa.cfg.exit):
             return True
         # every bypass must be dominated by "self.is_contigous is true"
+        from .guards import facts_at as _facts
         for n in calls:
-            facts = fa.cfg.facts_at(n)
-            for test, truth in facts:
-                s = ast.unparse(test.ast).replace(" ", "")
-                if s in ("notself.is_contigous", "not%s.is_contigous" % f.params[0]) and truth:
-                    return True
-                if s in ("self.is_contigous", "%s.is_contigous" % f.params[0]) and not truth:
+            for t, truth, test in _facts(fa, n):
+                c = attr_chain(t)
+                if c == (f.params[0], "is_contigous") and not truth:
                     return True
         return False
 
